@@ -424,6 +424,7 @@ namespace kit
     g.self = argv[0];
     std::string replay_file;
     std::string only_suite;
+    long long inline_case = -1;
     for (int i = 1; i < argc; ++i)
       {
         const std::string a = argv[i];
@@ -432,6 +433,7 @@ namespace kit
         else if (a == "--replay" && i+1 < argc) replay_file = argv[++i];
         else if (a == "--suite" && i+1 < argc) only_suite = argv[++i];
         else if (a == "--deadline" && i+1 < argc) { /* handled below */ ++i; }
+        else if (a == "--run-case" && i+2 < argc) { only_suite = argv[++i]; inline_case = atoll(argv[++i]); }
         else { fprintf(stderr, "usage: %s [--tier quick|thorough] [--shards n] [--replay file] [--suite name] [--deadline s]\n", argv[0]); return 2; }
       }
     if (const char *s = getenv("VERIF_SEED")) g.seed = atol(s);
@@ -466,6 +468,18 @@ namespace kit
         std::vector<Suite> f;
         for (auto &s : suites) if (s.name == only_suite) f.push_back(s);
         suites = f;
+      }
+    if (inline_case >= 0 && !suites.empty())
+      {
+        // debugging aid: run one case in this very process, print what it reports
+        g.replay = true;
+        Shared::W w{};
+        Ctx ctx;
+        ctx.w = &w;
+        run_one(suites[0], static_cast<uint64_t>(inline_case), ctx);
+        for (auto &v : ctx.replay_violations) printf("%s\n%s\n", v.first.c_str(), v.second.substr(0, 3000).c_str());
+        printf("evaluations=%llu violations=%zu nontrivial=%d\n", static_cast<unsigned long long>(w.evaluations), ctx.replay_violations.size(), ctx.case_nontrivial);
+        return ctx.replay_violations.empty() ? 0 : 1;
       }
     uint64_t total = 0;
     for (auto &s : suites) total += s.n;
